@@ -33,9 +33,11 @@ HasP(p, b) == (p \div b) % 2 = 1
 ToInt(ea) == IF ea[5] = 0 /\ ea[6] = 0 /\ ea[7] = 0 /\ ea[8] = 0 /\ ea[4] < 64
              THEN ea[1] + 256 * ea[2] + 65536 * ea[3] + 16777216 * ea[4] ELSE 0 - 1
 OfInt(n) == [i \in 1..8 |-> IF i > 4 THEN 0 ELSE (n \div (256 ^ (i - 1))) % 256]
-Accessible(ea, n, need) ==
-  LET a == ToInt(ea) IN
-  a >= 0 /\ \E k \in 1..Len(Areas) : Areas[k].start <= a /\ a + n <= Areas[k].start + Areas[k].len /\ HasP(Areas[k].prot, need)
+\* the fixed guest layout, plus areas a scenario created on top of it (st.xa - e.g. the stack init_stack allocated; optional field)
+AreasOf(st) == IF "xa" \in DOMAIN st THEN Areas \o st.xa ELSE Areas
+Accessible(st, ea, n, need) ==
+  LET a == ToInt(ea) ar == AreasOf(st) IN
+  a >= 0 /\ \E k \in 1..Len(ar) : ar[k].start <= a /\ a + n <= ar[k].start + ar[k].len /\ HasP(ar[k].prot, need)
 ByteAt(st, a) ==
   LET hits == {k \in 1..Len(st.ov) : a >= st.ov[k][1] /\ a < st.ov[k][1] + Len(st.ov[k][2])} IN
   IF hits = {} THEN Pat(a)
@@ -61,8 +63,8 @@ ReadOp(st, op, n) ==                         \* n = number of bytes wanted
   ELSE IF op.k = "mem" THEN Load(st, EA(st, op), n)
   ELSE IF IsX(op) THEN Trunc(st.x[op.r], n)
   ELSE ReadView(st.r, op.r)
-ReadFaults(st, op, n) == op.k = "mem" /\ ~Accessible(EA(st, op), n, 1)
-WriteFaults(st, op, n) == op.k = "mem" /\ ~Accessible(EA(st, op), n, 2)
+ReadFaults(st, op, n) == op.k = "mem" /\ ~Accessible(st, EA(st, op), n, 1)
+WriteFaults(st, op, n) == op.k = "mem" /\ ~Accessible(st, EA(st, op), n, 2)
 
 \* effect record
 Same == [s |-> "same", v |-> 0]
@@ -237,23 +239,23 @@ Jmp(st, i) == IF ReadFaults(st, i.ops[1], 8) THEN Fault
 \* increment and then load.  dev = FALSE is the architecture.
 Call(st, i, dev) ==
   LET rsp == st.r["RSP"] new == Sub8(rsp, 8) slot == IF dev THEN rsp ELSE new IN
-  IF ReadFaults(st, i.ops[1], 8) \/ ~Accessible(slot, 8, 2) THEN Fault
+  IF ReadFaults(st, i.ops[1], 8) \/ ~Accessible(st, slot, 8, 2) THEN Fault
   ELSE Done(st, i, [st.r EXCEPT !["RSP"] = new], st.x, <<<<ToInt(slot), Next8(st, i)>>>>, NoFx, Tgt(st, i.ops[1], 8), {})
 Ret(st, i, dev) ==
   LET rsp == st.r["RSP"] new == Add8(rsp, 8) slot == IF dev THEN new ELSE rsp IN
-  IF ~Accessible(slot, 8, 1) THEN Fault
+  IF ~Accessible(st, slot, 8, 1) THEN Fault
   ELSE Done(st, i, [st.r EXCEPT !["RSP"] = new], st.x, <<>>, NoFx, Load(st, slot, 8), {})
 Push(st, i, dev) ==
   LET s == i.ops[1]
       n == IF s.k = "imm" THEN (IF i.code \in {"Pushw_imm8", "Push_imm16"} THEN 2 ELSE 8) ELSE NB(s)
       v == ReadOp(st, s, n)
       rsp == st.r["RSP"] new == Sub8(rsp, n) slot == IF dev THEN rsp ELSE new
-  IN IF ReadFaults(st, s, n) \/ ~Accessible(slot, n, 2) THEN Fault
+  IN IF ReadFaults(st, s, n) \/ ~Accessible(st, slot, n, 2) THEN Fault
      ELSE Done(st, i, [st.r EXCEPT !["RSP"] = new], st.x, <<<<ToInt(slot), v>>>>, NoFx, Next8(st, i), {})
 Pop(st, i, dev) ==
   LET d == i.ops[1] n == NB(d)
       rsp == st.r["RSP"] new == Add8(rsp, n) slot == IF dev THEN new ELSE rsp
-  IN IF ~Accessible(slot, n, 1) THEN Fault
+  IN IF ~Accessible(st, slot, n, 1) THEN Fault
      ELSE Done(st, i, WR(st, d, Load(st, slot, n), [st.r EXCEPT !["RSP"] = new]), st.x, <<>>, NoFx, Next8(st, i), {})
 
 (* ------------------------------ dispatch ------------------------------ *)
